@@ -2,7 +2,7 @@
 use crate::engine::Outcome;
 use serde_json::Value;
 
-pub const ENGINES: &[&str] = &["C13", "C16", "C12", "C11", "C06"];
+pub const ENGINES: &[&str] = &["C13", "C16", "C12", "C11", "C06", "C02"];
 
 pub fn cases(engine: &str, run_seed: u64, tier: &str, scratch: &str) -> Vec<Value> {
     match engine {
@@ -10,6 +10,7 @@ pub fn cases(engine: &str, run_seed: u64, tier: &str, scratch: &str) -> Vec<Valu
         "C12" => crate::c12::cases(run_seed, tier, scratch),
         "C11" => crate::c11::cases(run_seed, tier, scratch),
         "C06" => crate::c06::cases(run_seed, tier, scratch),
+        "C02" => crate::c02::cases(run_seed, tier, scratch),
         #[cfg(umya_verif_sched)]
         "C16" => crate::c16::cases(run_seed, tier, scratch),
         _ => Vec::new(),
@@ -22,6 +23,7 @@ pub fn execute(case: &Value, scratch: &str) -> Outcome {
         "C12" => crate::c12::execute(case, scratch),
         "C11" => crate::c11::execute(case, scratch),
         "C06" => crate::c06::execute(case, scratch),
+        "C02" => crate::c02::execute(case, scratch),
         #[cfg(umya_verif_sched)]
         "C16" => crate::c16::execute(case, scratch),
         e => Outcome { harness_error: Some(format!("unknown engine {:?}", e)), ..Default::default() },
@@ -35,6 +37,7 @@ pub fn shrink_keys(engine: &str) -> &'static [&'static str] {
         "C12" => &["steps"],
         "C11" => &["events"],
         "C06" => &["steps"],
+        "C02" => &["steps", "materialise"],
         "C16" => &["clone_ops", "base_ops", "savers"],
         _ => &["ops"],
     }
